@@ -28,6 +28,7 @@ LETTER_MATS = {
     "iY": [[0, 1], [-1, 0]],
     "Z": [[1, 0], [0, -1]],
     PLUS: [[1, 2], [2, -1]],
+    r"b^\dagger+b": [[1, 2], [2, -1]],      # the spelling without spaces (what Op.split_symbol stores) is the same letter
     r"b^\dagger": [[0, 0], [3, 1]],
     "b": [[0, 3], [0, 1]],
     r"a^\dagger": [[0, 0], [1, 0]],
